@@ -86,6 +86,8 @@ class Tr:
                 ev.append(("V", int(t[1:])))
             elif c == "K":
                 ev.append(("K", int(t[1:])))
+            elif t == "k":
+                ev.append(("K", None))       # a member inserted through Extend::extend: its key is not reported
             elif c == "N":
                 ev.append(("N", int(t[1:])))
             elif t == "T":
@@ -506,7 +508,7 @@ def _groups(case, toks, want_stream):
                         m = valowner[v]
                         if yielded_this is None or yielded_this[1] != v:
                             return f"group yielded {v} in a poll in which it was not produced"
-                        if keyed and key != members[m]:
+                        if keyed and members[m] is not None and key != members[m]:
                             return f"value {v} of member {m} (key {members[m]}) was yielded with key {key}"
                     elif yielded_this is not None:
                         return f"member {yielded_this[0]} produced {yielded_this[1]} in this poll but the poll returned {kind}"
@@ -533,14 +535,22 @@ def _groups(case, toks, want_stream):
             if e[0] != "K":
                 return f"expected key after insert, got {e}"
             k = e[1]
-            if k in alive.values():
+            if k in [x for x in alive.values() if x is not None]:
                 return f"insert returned key {k} which a live member already holds"
             m = len(members)
             members.append(k)
             alive[m] = k
+        elif op.startswith("ext("):
+            for _ in op[4:-1].split(";"):
+                e = nxt()
+                if e != ("K", None):
+                    return f"expected the marker of an extend-insert, got {e}"
+                m = len(members)
+                members.append(None)        # Extend::extend does not report keys
+                alive[m] = None
         elif op.startswith("rm"):
             j = int(op[2:])
-            if j >= len(members):
+            if j >= len(members) or members[j] is None:
                 continue
             e = nxt()
             if e is not None and e[0] == "D":
@@ -577,10 +587,12 @@ def _groups(case, toks, want_stream):
                 return f"is_empty reported {e} with {len(alive)} members"
         elif op.startswith("has"):
             j = int(op[3:])
-            if j >= len(members):
+            if j >= len(members) or members[j] is None:
                 continue
             e = nxt()
             want = members[j] in alive.values()
+            if not want and any(v is None for v in alive.values()):
+                continue        # a member born through extend (key unknown) may have reused this key
             if e is None or e[0] != "q" or e[1] != want:
                 return f"contains_key(key of member {j}) reported {e}, expected {want}"
     return None
